@@ -88,8 +88,7 @@ def build(d: Any) -> Any:
     if k == "M":
         if d[1] is None:
             return MetadataNode()
-        from .deps import build_dep
-        return build_dep(d[1])
+        return htmltools.HTMLDependency(**d[1])
     if k == "G":
         _, name, ws, attrs, kids = d
         t = Tag(name, *[build(x) for x in kids], _add_ws=ws)
@@ -106,7 +105,7 @@ def build(d: Any) -> Any:
     raise ValueError(d)
 
 
-def to_sx(d: Any) -> Any:
+def to_sx(d: Any, meta=lambda payload: []) -> Any:
     k = d[0]
     if k == "T":
         return [0, S(d[1])]
@@ -115,18 +114,15 @@ def to_sx(d: Any) -> Any:
     if k == "R":
         return [2, S(d[1])]
     if k == "M":
-        if d[1] is None:
-            return [3, []]
-        from .deps import dep_sx
-        return [3, dep_sx(d[1])]
+        return [3, meta(d[1])]
     if k == "G":
         _, name, ws, attrs, kids = d
         return [4, S(name), 1 if ws else 0,
                 [[S(key), [1 if m == "H" else 0, S(v)]] for key, (m, v) in attrs],
-                [to_sx(x) for x in kids]]
+                [to_sx(x, meta) for x in kids]]
     if k == "C":
         _, sh, exp, as_list = d
-        return [5, sx_opt(None if sh is None else S(sh)), [to_sx(x) for x in exp]]
+        return [5, sx_opt(None if sh is None else S(sh)), [to_sx(x, meta) for x in exp]]
     raise ValueError(d)
 
 
@@ -200,6 +196,9 @@ def rand_child(rng: random.Random, depth: int, **kw) -> Any:
         sh = rand_text(rng, 4) if rng.random() < 0.2 else None
         return ("C", sh, exp, as_list)
     k = rng.choice(leaves)
+    if k == "D":
+        return ("M", {"name": rng.choice(["a", "b", "c"]), "version": rng.choice(["1.0", "1.10", "2"]),
+                      "head": rng.choice([None, "<meta name='x'>"])})
     if k == "T":
         return ("T", rand_text(rng))
     if k == "H":
